@@ -4,6 +4,7 @@ import (
 	"fmt"
 	"reflect"
 	"strings"
+	"sync"
 
 	"github.com/cloudspannerecosystem/memefish"
 
@@ -31,53 +32,89 @@ func specificEntry(kind string) string {
 
 func isStatementKind(kind string) bool { return kind != "expr" && kind != "type" }
 
-// grammarDev returns the deviation bound for a root at a tier.
-func grammarDev(tier string, root string, base int) int {
-	k := base
-	if tier == "thorough" {
-		k = base + 1
-	}
-	return k
-}
+// rootBounds gives every root of G its own deviation bound: base, base+1 or base+2, the
+// largest for which the root has at most capPerRoot sentences (small productions are explored
+// deeper; the count itself is an exploration with an empty body, abandoned when it exceeds the cap).
+var (
+	rootBoundsMu    sync.Mutex
+	rootBoundsCache = map[string]map[string]int{}
+)
 
-// grammarSpace enumerates every sentence of every root of G with at most k deviations (S4).
-func grammarSpace(r *explore.Run, name string, baseDev int, body func(c *explore.Ctx, s *grammar.Sentence)) {
-	k := grammarDev(r.Tier, "", baseDev)
-	roots := grammar.Roots
-	r.Explore(explore.Options{Space: name, MaxDev: k, SplitLen: 2,
-		Bound: fmt.Sprintf("every derivation of each of the %d roots of reference grammar G with <=%d deviations from the minimal derivation", len(roots), k)},
-		func(c *explore.Ctx) {
-			root := roots[c.ChooseFree(len(roots))]
-			s := grammar.Derive(c, root)
-			body(c, s)
-		})
-}
-
-// errContext names the token at the first error's position and the one before it.
-func errContext(text string, err error) string {
-	me, ok := err.(memefish.MultiError)
-	if !ok || len(me) == 0 || me[0] == nil || me[0].Position == nil {
-		return "?"
+func rootBounds(base int, capPerRoot int64) map[string]int {
+	key := fmt.Sprintf("%d/%d", base, capPerRoot)
+	rootBoundsMu.Lock()
+	defer rootBoundsMu.Unlock()
+	if m, ok := rootBoundsCache[key]; ok {
+		return m
 	}
-	pos := int(me[0].Position.Pos)
-	toks, _ := oracle.ImplLex(text)
-	at, prev := "<eof>", "<start>"
-	for i, t := range toks {
-		if t.Pos >= pos {
-			at = refClassKW(string(t.Kind))
-			if i > 0 {
-				prev = refClassKW(string(toks[i-1].Kind))
+	m := map[string]int{}
+	for _, root := range grammar.Roots {
+		root := root
+		m[root.Name] = base
+		for extra := 2; extra >= 1; extra-- {
+			st := explore.Explore(explore.Options{Space: "count", MaxDev: base + extra, SplitLen: 1, StopAfter: capPerRoot}, func(c *explore.Ctx) {
+				grammar.Derive(c, root)
+			})
+			if st.Exhaustive && st.Evaluations <= capPerRoot {
+				m[root.Name] = base + extra
+				break
 			}
-			return "prev=" + prev + "/at=" + at
 		}
 	}
-	if len(toks) > 0 {
-		prev = refClassKW(string(toks[len(toks)-1].Kind))
-	}
-	return "prev=" + prev + "/at=" + at
+	rootBoundsCache[key] = m
+	return m
 }
 
-func refClassKW(k string) string { return k }
+// grammarSpace enumerates every sentence of every root of G within the root's deviation bound (S4):
+// base deviations (base+1 in the thorough tier) for every root, one or two more for roots that stay
+// below capPerRoot sentences.
+func grammarSpace(r *explore.Run, name string, baseDev int, body func(c *explore.Ctx, s *grammar.Sentence)) {
+	grammarSpaceCap(r, name, baseDev, 30000, body)
+}
+
+func grammarSpaceCap(r *explore.Run, name string, baseDev int, capPerRoot int64, body func(c *explore.Ctx, s *grammar.Sentence)) {
+	k := baseDev
+	if r.Tier == "thorough" {
+		k++
+	}
+	bounds := map[string]int{}
+	if r.Replaying() {
+		for _, root := range grammar.Roots {
+			bounds[root.Name] = k + 2
+		}
+	} else {
+		bounds = rootBounds(k, capPerRoot)
+	}
+	for extra := 0; extra <= 2; extra++ {
+		var roots []*grammar.Root
+		for _, root := range grammar.Roots {
+			if bounds[root.Name] == k+extra || r.Replaying() && extra == 2 {
+				roots = append(roots, root)
+			}
+		}
+		if len(roots) == 0 {
+			continue
+		}
+		space := name
+		if extra > 0 {
+			space = fmt.Sprintf("%s+%d", name, extra)
+		}
+		var names []string
+		for _, root := range roots {
+			names = append(names, root.Name)
+		}
+		desc := fmt.Sprintf("every derivation of %d roots of reference grammar G with <=%d deviations from the minimal derivation", len(roots), k+extra)
+		if extra > 0 {
+			desc += " (roots with <= " + fmt.Sprint(capPerRoot) + " sentences at this bound: " + strings.Join(names, " ") + ")"
+		}
+		r.Explore(explore.Options{Space: space, MaxDev: k + extra, SplitLen: 2, Bound: desc},
+			func(c *explore.Ctx) {
+				root := roots[c.ChooseFree(len(roots))]
+				s := grammar.Derive(c, root)
+				body(c, s)
+			})
+	}
+}
 
 func errClass(err error) string {
 	if err == nil {
@@ -165,4 +202,28 @@ func C08(r *explore.Run) {
 
 func init() {
 	Registry["C08"] = C08
+}
+
+// errContext names the token at the first error's position and the one before it.
+func errContext(text string, err error) string {
+	me, ok := err.(memefish.MultiError)
+	if !ok || len(me) == 0 || me[0] == nil || me[0].Position == nil {
+		return "?"
+	}
+	pos := int(me[0].Position.Pos)
+	toks, _ := oracle.ImplLex(text)
+	at, prev := "<eof>", "<start>"
+	for i, t := range toks {
+		if t.Pos >= pos {
+			at = string(t.Kind)
+			if i > 0 {
+				prev = string(toks[i-1].Kind)
+			}
+			return "prev=" + prev + "/at=" + at
+		}
+	}
+	if len(toks) > 0 {
+		prev = string(toks[len(toks)-1].Kind)
+	}
+	return "prev=" + prev + "/at=" + at
 }
